@@ -160,7 +160,7 @@ def _sample(case):
 def plan(tier: str) -> list[dict]:
     if tier == "quick":
         return [{"n_min": 3, "n_max": 5, "examples": 250, "cost": 3} for _ in range(4)] + [{"n_min": 6, "n_max": 6, "examples": 40, "cost": 3}]
-    return [{"n_min": 3, "n_max": 5, "examples": 1500, "cost": 10} for _ in range(12)] + [{"n_min": 6, "n_max": 6, "examples": 200, "cost": 10} for _ in range(4)]
+    return [{"n_min": 3, "n_max": 5, "examples": 9000, "cost": 10} for _ in range(12)] + [{"n_min": 6, "n_max": 6, "examples": 1000, "cost": 10} for _ in range(4)]
 
 
 def run_shard(spec: dict, ctx: Ctx) -> None:
